@@ -1187,6 +1187,10 @@ public:
   Option_Type type() {
     return real_->type();
   }
+  /// A synonym of a flag is a flag
+  bool is_flag() const override {
+    return real_->is_flag();
+  }
 };
 
 void SolverOptionManager::AddOptionSynonyms_OutOfLine(
